@@ -85,20 +85,25 @@ class PointerSymbol(Symbol):
     def expr(self):
         return str(self._expr_tree)
 
+    def _method_call(self, method):
+        return expr_tree.FunctionCall(
+            tuple(), expr_tree.AttributeAccess(method, self._expr_tree)
+        )
+
     def normalized(self):
-        return PointerSymbol(self.expr + ".normalized()", self.type)
+        return PointerSymbol(self._method_call("normalized"), self.type)
 
     def unitary(self):
-        return PointerSymbol(self.expr + ".unitary()", self.type)
+        return PointerSymbol(self._method_call("unitary"), self.type)
 
     def __invert__(self):
         return PointerSymbol(~self._expr_tree, self.type)
 
     def linv(self):
-        return PointerSymbol(self.expr + ".linv()", self.type)
+        return PointerSymbol(self._method_call("linv"), self.type)
 
     def rinv(self):
-        return PointerSymbol(self.expr + ".rinv()", self.type)
+        return PointerSymbol(self._method_call("rinv"), self.type)
 
     def __neg__(self):
         return PointerSymbol(-self._expr_tree, self.type)
